@@ -250,6 +250,20 @@ def templates(ctx, rule):
         ctx.ob(rule, "youtube/video-id-language", w is None, "YOUTUBE_VIDEO_ID_RE no longer accepts exactly the 11-character ids (%s)" % (w,), ym.site(repo.const_node(ym, "YOUTUBE_VIDEO_ID_RE")), witness=w and w[1])
     except Unsupported as e:
         ctx.undecided(rule, "YOUTUBE_VIDEO_ID_RE: %s" % e)
+    # the v= / list= value patterns capture a non-empty value (an empty playlist would not survive normalize_youtube_url)
+    for name in ("QUERY_V_RE", "QUERY_LIST_RE"):
+        rxq = repo.const(ym, name)
+        ctx.rx("ural.youtube." + name)
+        try:
+            A = Algebra()
+            a = A.regex(rxq.pattern, rxq.flags, "fullmatch")
+            key = "v" if name == "QUERY_V_RE" else "list"
+            empty = A.regex("(?i:%s)=" % key if False else "[%s%s]%s=" % (key[0].lower(), key[0].upper(), "".join("[%s%s]" % (c.lower(), c.upper()) for c in key[1:])), 0, "fullmatch")
+            w = A.witness(A.inter(a, empty))
+            ctx.ob(rule, "youtube/%s/value-non-empty" % name, w is None,
+                   "%s matches %r with an empty value: 'watch?v=ID&list=' parses to playlist='' and its canonical url re-parses to playlist=None" % (name, w), ym.site(repo.const_node(ym, name)), witness="https://www.youtube.com/watch?v=92HWiOdpY2s&list=")
+        except Unsupported as e:
+            ctx.undecided(rule, "%s: %s" % (name, e))
     # google drive templates
     gm = repo.mod("google")
     gparser = unparse(gm.func("parse_google_drive_url").node)
